@@ -319,7 +319,7 @@ func (w *schedWorld) exhaustive(r *ev.Run, scs []*scenario, maxRuns int, workers
 			defer wg.Done()
 			defer func() { <-sem }()
 			d := &ksrig.SchedDFS{}
-			runs := 0
+			runs, unclean := 0, 0
 			complete := false
 			for {
 				out := w.runScenario(r, sc, d, "sched-dfs", map[string]interface{}{"dfs_run": runs})
@@ -330,6 +330,14 @@ func (w *schedWorld) exhaustive(r *ev.Run, scs []*scenario, maxRuns int, workers
 				}
 				if out.res.Hung || out.res.Deadlock {
 					break
+				}
+				if !out.clean {
+					// a broken tree multiplies the interleavings (calls interleave inside what used to be critical
+					// sections); once a scenario has shown violations many times nothing new is learnt from going on
+					unclean++
+					if unclean >= 50 {
+						break
+					}
 				}
 				if !d.Next() {
 					complete = true
@@ -342,6 +350,8 @@ func (w *schedWorld) exhaustive(r *ev.Run, scs []*scenario, maxRuns int, workers
 			mu.Lock()
 			if !complete || d.Diverged {
 				allExhaustive = false
+			}
+			if (!complete || d.Diverged) && unclean == 0 {
 				r.Inconclusive(fmt.Sprintf("enumeration of %s not exhaustive: runs=%d complete=%v diverged=%v", sc.Name, runs, complete, d.Diverged))
 			}
 			mu.Unlock()
